@@ -6,9 +6,6 @@ import (
 	"go/parser"
 	"go/token"
 	"math/rand"
-	"reflect"
-	"sort"
-	"strconv"
 
 	"verifharness/hist"
 	"verifharness/term"
@@ -59,12 +56,21 @@ func (c17) Generate(r *rand.Rand, t string) []*Case {
 		out = append(out, tagCase([][2]string{{"k", string([]byte{byte(b)})}}, true, "byte"))
 		out = append(out, tagCase([][2]string{{"a", "x"}, {"k", "\"" + string([]byte{byte(b)}) + "\""}, {"z", ""}}, b%2 == 0, "byte"))
 	}
+	// pairs whose key+value spell the same text with the boundary elsewhere (c17_live.go)
+	out = append(out, c17BoundaryCases(r, tier(t, 300, 20000))...)
+	// maps of the caller that change after Tag(m) and between renders (c17_live.go)
+	for i, n := 0, tier(t, 1500, 60000); i < n; i++ {
+		out = append(out, c17LiveCase(r))
+	}
 	return out
 }
 
 func (c17) Compare(c *Case, exp, got []hist.Obs) string { return CompareAll(exp, got) }
 
 func (c17) Oracle(c *Case, got []hist.Obs) string {
+	if c.Meta["kind"] == "live" {
+		return c17LiveOracle(c, got) // c17_live.go
+	}
 	kv := c.Meta["kv"].([][2]string)
 	if len(got) != 1 || got[0].Kind != "write" {
 		return fmt.Sprintf("render did not succeed: %v", got)
@@ -87,62 +93,14 @@ func (c17) Oracle(c *Case, got []hist.Obs) string {
 	if field == nil {
 		return "struct field not found in output"
 	}
-	if len(kv) == 0 {
-		if field.Tag != nil {
-			return "empty map rendered a tag: " + field.Tag.Value
-		}
-		return ""
-	}
-	if field.Tag == nil {
-		return "tag missing from output"
-	}
-	body, err := strconv.Unquote(field.Tag.Value)
-	if err != nil {
-		return "tag literal does not unquote: " + err.Error()
-	}
-	st := reflect.StructTag(body)
-	keys := make([]string, 0, len(kv))
-	for _, p := range kv {
-		v, ok := st.Lookup(p[0])
-		if !ok {
-			return fmt.Sprintf("key %q not found in tag %q", p[0], body)
-		}
-		if v != p[1] {
-			return fmt.Sprintf("key %q: got %q want %q (tag %q)", p[0], v, p[1], body)
-		}
-		keys = append(keys, p[0])
-	}
-	// keys in sorted order: scan the conventional format
-	sort.Strings(keys)
-	pos := 0
-	rest := body
-	for _, k := range keys {
-		want := k + ":\""
-		if pos > 0 {
-			want = " " + want
-		}
-		if len(rest) < len(want) || rest[:len(want)] != want {
-			return fmt.Sprintf("keys not in sorted order at %q (tag %q)", k, body)
-		}
-		// skip the quoted value
-		i := len(want)
-		for i < len(rest) && rest[i] != '"' {
-			if rest[i] == '\\' {
-				i++
-			}
-			i++
-		}
-		rest = rest[i+1:]
-		pos++
-	}
-	if rest != "" {
-		return fmt.Sprintf("trailing text %q in tag %q", rest, body)
-	}
-	return ""
+	return c17CheckField(field, kv)
 }
 
 func (c17) Shrink(c *Case) []*Case {
-	kv := c.Meta["kv"].([][2]string)
+	kv, ok := c.Meta["kv"].([][2]string)
+	if !ok {
+		return nil // live-map cases (c17_live.go) are not shrunk
+	}
 	nf := c.Hist[1].Flag
 	var out []*Case
 	for i := range kv {
